@@ -99,6 +99,21 @@ PROPS = {
         assumptions=["dispatch and order of writes within a reconcile; the traffic effects of the cancellation tasks are C04's"],
         explanation="rollback/supersession dispatch theorems; dispatch clause evaluated on the real reconcile's result",
     ),
+    "C08": dict(
+        engines=[dict(name="webhook", quick=1500, thorough=60000, shard=500, trivial_tags=[])],
+        rule="seeded structured generator of admission requests: kind in {CloneSet, Advanced DaemonSet, Deployment, native/advanced StatefulSet, custom StatefulSet-like kind}, "
+             "(old,new) pairs differing by template / rollout-id / both / annotation-only / hash-label-only / scale / nothing, nil label and annotation maps, absent strategy blocks, "
+             "0-3 Rollouts (matching, other name/kind/group, unparsable apiVersion, other version of the same group, deleting, Disabled, empty strategy, canary/blue-green, with and "
+             "without traffic routing), webhook configuration with/without a matching rule and objectSelector, non-UPDATE operations and sub-resources, for Deployments 0-3 ReplicaSets "
+             "(foreign, deleting, scaled to zero, any revision order) and in-progress releases of every rolling style with un-pause / strategy edits; the real Handle is called with a "
+             "fake client, the returned JSON patch is applied to the submitted object; non-trivial = every case (each compares a full admission); distinct = distinct input JSON",
+        trusted=["controller-runtime admission.Decoder, fake client and k8s rule Matcher; evanphx/json-patch applies the returned patch",
+                 "whether some rule of the MutatingWebhookConfiguration matches the request is an input of the model (k8s.io/apiserver Matcher is not modelled)"],
+        assumptions=["ReplicaSets have distinct integer revision annotations and non-nil spec.replicas (API-server defaulting)",
+                     "contents of the rewritten deployment-strategy annotation other than its paused flag are not modelled"],
+        explanation="five clause theorems over all requests; the model is compared with the real handlers on every case and the same clause booleans, plus a byte-level frame "
+                    "comparison of everything outside the modelled fields, are evaluated on the real response",
+    ),
     "C17": dict(
         engines=[dict(name="deployctl", quick=1200, thorough=60000, shard=400, trivial_tags=["no-change"])],
         rule="seeded generator of (replicas 0..100, partition int/percent incl. 0/1/99/100%, maxSurge/maxUnavailable int/percent/absent, new ReplicaSet size and availability, 0-5 old "
@@ -209,6 +224,14 @@ MANIFEST_TEXT = {
              "is gone. Tied to the real Reconcile by the rolloutsm engine; the dispatch clause is evaluated on the real result.",
         note="The effect of each cancellation task on Services and routes (traffic really back on stable) is C04's automaton; blue-green refusal of supersession is not modelled.",
         design_ref="DESIGN.md section 9, C10"),
+    "C08": dict(
+        text="Proof: Properties/C08.v states for EVERY admission request (any kind, any old/new pair, any list of Rollouts and ReplicaSets, any webhook selection) that the model of "
+             "WorkloadHandler.Handle / UnifiedWorkloadHandler.Handle holds a release change of a running, selected workload with an active matching Rollout (paused / partition 100% / "
+             "partition MaxInt16) and marks it in-progress for exactly that Rollout, re-pauses an un-paused Deployment in the middle of a canary- or partition-style release, admits "
+             "everything else unchanged, never touches a field outside the per-kind write set, and never fails. The model is compared with the real handlers (real decoder, fake "
+             "client, returned JSON patch applied to the submitted bytes) on generated requests on every run; the clause booleans and a byte-level frame check run on the real response.",
+        note="The k8s rule Matcher and label-selector machinery are inputs; the full text of the rewritten deployment-strategy annotation is not modelled (only its paused flag).",
+        design_ref="DESIGN.md section 9, C08"),
     "C17": dict(
         text="Proof (two of four clauses): for every state of a partition-style Deployment and one sync of the advanced deployment controller, the new ReplicaSet never grows beyond "
              "max(current size, partition limit) while old pods exist and is never scaled up so that the total exceeds replicas + maxSurge. The model of reconcileNew/OldReplicaSets "
